@@ -35,7 +35,8 @@ EXTENDS Integers, Sequences, FiniteSets, TLC
 CONSTANTS FixAsyncCb,   \* AddWaitForCsvTx (RPC watcher) runs the CSV callback on its own goroutine instead of synchronously
           FixCbRpc,     \* HandleCsvTx calls back after releasing the watcher lock
           FixCbEl,      \* liquidBlockHeaderSubscriber.Update runs the observers outside its registry lock
-          FixKickoff,   \* AddWaitForConfirmationTx hands the first height over without blocking (buffered channel, select/default)
+          FixKickoff,   \* design variant, NOT adopted in the code (FALSE): AddWaitForConfirmationTx hands the first height over without
+                        \* blocking. It is not needed: with FixDispatch the dispatcher can not reach a loop before its kick-off.
           FixDispatch,  \* the dispatcher reads observerLoopList under the watcher lock
           FixPolicy,    \* NewSwapsAllowed and ReloadFile take the policy mutex
           FixResend,    \* ResendLastMessage runs its action under the swap mutex
